@@ -363,7 +363,14 @@ def record(case):
             c["keep"] = case["keep"]
         inp = pt.project(df)["rows"]
         if len(inp) != len(atoms):
-            raise lib.MachineryError(f"{case['id']}: reader returned {len(inp)} rows for {len(atoms)} atoms")
+            # the table-level reader lost or invented rows: that is an answer of the code under test (the trace
+            # spec rejects any error name it does not know), not a harness failure
+            c["err"] = "ReaderRowCount"
+            if case["kind"] == "big":
+                c["stats"] = _stats(inp or [dict(a, chain=list(a["chain"]), icode=list(a["icode"])) for a in atoms[:1]], [], [])
+            else:
+                c["inp"] = inp
+            return c
     out, back = [], []
     try:
         c["can"] = bool(p2.can_write_pdb(df))
